@@ -326,6 +326,16 @@ def check_container_factory(ctx, num=5):
                 detail += "; the construction is inside a nested loop (several containers per assignment)"
         ctx.ob(num, "K3", "one container per element of the assignments parameter (no element skipped, none duplicated)", ok, home, c,
                construct="for a in assignments: Container(assignment=a)", detail=detail)
+        if ok:
+            # the creation loop is on every path through the tick, or is bypassed only when there is nothing to create
+            byp = g.path_avoiding(g.entry.id, {g.exit.id}, {hid})
+            okb = byp is None
+            if not okb:
+                IN = g.facts(blocked={hid})
+                ex = IN.get(g.exit.id)
+                okb = ex is None or norm.entails(ex, ("truth", asg_p, False))
+            ctx.ob(num, "K3", "the creation loop is reached in every tick in which the pool is handed an assignment (it is skipped only for an empty list)", okb, home, lp,
+                   construct="creation loop on every path", detail="on every path" if byp is None else f"bypass {g.describe_path(byp)}" + ("; only with an empty list" if okb else ""))
 
 
 def check_suffix_slices(ctx, num=6):
